@@ -60,7 +60,7 @@ func init() {
 }
 
 func runC07(b *Batch) {
-	nSeq := b.Pick(20000, 1000000) / b.NBatches
+	nSeq := b.Pick(20000, 4000000) / b.NBatches
 	for i := 0; i < nSeq; i++ {
 		if b.Skip(i) {
 			continue
